@@ -59,6 +59,15 @@ theorem pack_serialize_conforms {c : Codec} {D : Str → Prop} (hf : c.Faithful 
     simp [encOf, hb]
   exact ⟨imageOf c m, serialize_eq m henc, fun hsz => imageOf_conforms hf m hD hlen hsz⟩
 
+/-- The layout relation is unambiguous: an image conforms to the pack layout for at most one
+ordered set of distinctly named files of the domain. -/
+theorem pack_conforming_unique {c : Codec} {D : Str → Prop} (hf : c.Faithful D) {img : Bytes}
+    {m m' : Files} (hc : ConformsPack c.enc img m) (hc' : ConformsPack c.enc img m')
+    (hD : ∀ kv ∈ m, D kv.1) (hD' : ∀ kv ∈ m', D kv.1) (hN : DistinctNames m)
+    (hN' : DistinctNames m') : m = m' := by
+  have := (pack_parse_conforming hf hc hD hN).symm.trans (pack_parse_conforming hf hc' hD' hN')
+  injection this
+
 /-- **Round trip.** Building a pack archive from an ordered set of up to 65535 distinctly named
 files and parsing it returns the same names in the same order with the same contents. -/
 theorem pack_roundtrip {c : Codec} {D : Str → Prop} (hf : c.Faithful D) (m : Files)
